@@ -363,7 +363,41 @@ class Normaliser(object):
         self._fstrings_to_format()
         self._inline_new_constants()
         self._fold_delegates()
+        self._tail_loop_returns()
         self._collect()
+
+    def _tail_loop_returns(self):
+        """a new function that ends in a loop and leaves it by a bare `return`: the return is a `break` (nothing follows the loop, the
+        loop has no else clause), which makes the function an ordinary statement sequence again"""
+        self.tail_returns = 0
+        for t in self.trees.values():
+            for fn in [n for n in ast.walk(t) if isinstance(n, ast.FunctionDef)]:
+                if fn.name in self.pinned or not fn.body or not isinstance(fn.body[-1], (ast.While, ast.For)) or fn.body[-1].orelse:
+                    continue
+                loop = fn.body[-1]
+                if any(isinstance(n, (ast.Yield, ast.YieldFrom)) for n in _walk_own(fn)):
+                    continue
+                rets = [n for s_ in fn.body for n in _walk_own(s_) if isinstance(n, ast.Return)]
+                if not rets or any(r.value is not None and not (isinstance(r.value, ast.Constant) and r.value.value is None) for r in rets):
+                    continue
+                inner = {id(n) for s_ in loop.body for l in _walk_own(s_) if isinstance(l, (ast.While, ast.For)) for n in ast.walk(l)}
+                inner |= {id(n) for s_ in loop.body for l in ([s_] + list(_walk_own(s_))) if isinstance(l, (ast.While, ast.For)) for n in ast.walk(l)}
+                inloop = {id(n) for s_ in loop.body for n in ast.walk(s_)}
+                if any(id(r) not in inloop or id(r) in inner for r in rets):
+                    continue
+
+                class R(ast.NodeTransformer):
+                    def visit_FunctionDef(self_, n):
+                        return n
+
+                    def visit_Lambda(self_, n):
+                        return n
+
+                    def visit_Return(self_, n):
+                        return ast.copy_location(ast.Break(), n)
+                loop.body = [R().visit(s_) for s_ in loop.body]
+                self.tail_returns += 1
+                self.inlined.append(('tail-loop return', fn.name, 'to-break'))
 
     def _collect(self):
         by_name = {}
